@@ -147,7 +147,7 @@ ea_modes = (
 class DataRegDstEa(Constructor):
     """Data register access"""
 
-    reg = Operand("reg", DataRegister, read=True)
+    reg = Operand("reg", DataRegister, write=True)
     syntax = Syntax([reg])
     patterns = {"opmode": 0, "register": reg}
 
